@@ -212,3 +212,16 @@ def run(ctx):
                 ctx.check(R6, verdicts == {'fixed'}, 'batch-bound:' + g.path, 'the bound a batch is compared with is updated inside the batching loop: batches (and with them the memory of the build) grow with the input', fn=g)
         if n6 == 0:
             ctx.undecided(R6, 'batch-bound', 'no size test recognised in the batching loop')
+    # the sorted CLI builds stream their input into the builder: reading all rows into memory first makes the command's memory linear
+    # in the input (that is what the unsorted mode with its bounded batches is for)
+    if b is not None:
+        R7 = ctx.rule('R13.7', 'fst-bin: the --sorted builds do not collect their input', floor=1)
+        n7 = 0
+        for g in b.fn_list:
+            if g.from_expansion or not g.path.endswith('::run_sorted'):
+                continue
+            n7 += 1
+            coll = [(g.callee(t) or '') for _, t in g.calls() if (g.callee(t) or '').rsplit('::', 1)[-1] in ('collect', 'from_iter', 'sort', 'sort_unstable', 'sort_by', 'sort_by_key', 'dedup_by', 'dedup', 'extend')]
+            ctx.check(R7, not coll, 'streams:' + g.path, '%s gathers its input rows in memory (%s) before building: memory grows with the input' % (g.path, sorted({c_.rsplit('::', 1)[-1] for c_ in coll})), fn=g)
+        if n7 == 0:
+            ctx.undecided(R7, 'streams', 'no run_sorted command found')
